@@ -62,8 +62,12 @@ Proof.
       apply in_or_app. right. exact Hv.
 Qed.
 
-(* THE FULL STATEMENT (success part): for every database that is itself consistent with respect
-   to uuid and attribute uniqueness, the upgrade succeeds and asserts every definition. *)
+(* THE FULL STATEMENT.  The property is the conjunction of (a) user data kept = C48_user_preserved,
+   (b) every definition present with its values = the conclusion of
+   C48_builtin_present_if_complete_partial, (c) the consistency check passes (derived attributes:
+   outside this model, checked on the implementation's output only) and (d) THE UPGRADE SUCCEEDS AND
+   ASSERTS EVERY DEFINITION for every database that is itself consistent with respect to uuid and
+   attribute uniqueness.  (d) is the premise (b) needs; it is stated here at full strength. *)
 Definition C48_full_statement : Prop :=
   forall c defs dels vtgt d, cfg_ok c -> defs_wf defs dels ->
   (forall b, In b defs -> In (bphase b) PHASES) ->
